@@ -97,6 +97,12 @@ def r_add_bad_name(api):
                 return None
             op['joliet_path'] = join(parent_of(op['joliet_path']), 'j' * 70)
             return ('too-long-joliet', op, True)
+        if which == 'joliet-nonbmp':
+            # 33..64 characters outside the BMP: up to 64 characters, but more than 64 UCS-2 units
+            if not cfg.joliet or not op.get('iso_path'):
+                return None
+            op['joliet_path'] = join(parent_of(op['joliet_path']) if op.get('joliet_path') else '/', g.rng.choice(['\U0001F600', '\U00010348']) * g.rng.choice([33, 40, 56, 60, 64]))
+            return ('too-long-joliet-nonbmp', op, True)
         if which in ('joliet-empty', 'joliet-relative', 'udf-empty', 'udf-relative'):
             # a second / third path that is not an absolute path at all (empty, or without the slash)
             ns_ = which.split('-')[0]
@@ -500,7 +506,7 @@ for api in ('add_fp', 'add_directory'):
 for w in ('rr-too-long-reloc', 'iso-dup-reloc', 'reloc-name-taken'):
     RECIPES.append(('add_directory', r_add_bad_name('add_directory'), w))
 for api in ('add_fp', 'add_directory'):
-    for w in ('joliet-empty', 'joliet-relative', 'udf-empty', 'udf-relative'):
+    for w in ('joliet-empty', 'joliet-relative', 'udf-empty', 'udf-relative', 'joliet-nonbmp'):
         RECIPES.append((api, r_add_bad_name(api), w))
 for w in ('joliet-empty', 'joliet-relative', 'udf-empty', 'udf-relative'):
     RECIPES.append(('add_symlink', r_symlink, w))
